@@ -1,6 +1,7 @@
 package harness
 
 import (
+	"os"
 	"fmt"
 	"sync/atomic"
 	"math/rand"
@@ -363,6 +364,9 @@ func TestServerStories(t *testing.T) {
 	c := newCaseWriter(t, "stories")
 	defer c.close(t, "stories")
 	n := scale(8, 120)
+	if os.Getenv("VERIF_RACE") != "" {
+		n = scale(2, 20) // under the race detector the overlap bursts below are what matters
+	}
 	for i := 0; i < n; i++ {
 		for j, st := range stories {
 			runStory(t, c, serverTags(), st, seed()*7000003+int64(i*100+j))
